@@ -6,6 +6,7 @@ import Carquet.Proofs.BitpackTails
 import Carquet.Proofs.RleEncoder
 import Carquet.Proofs.RleLevels
 import Carquet.Proofs.RleLevelsF58
+import Carquet.Proofs.RleHistory
 /-
 C11 — every encoding decodes its own output (part: ULEB128 varints + zigzag, raw bit packing,
 RLE/bit-packed hybrid for values and int16 levels, with and without length prefix).
@@ -188,6 +189,38 @@ example : Rle.runOps (Rle.Dec.init 1 [0x03, 0xFD, 0x08, 0x01, 0x03, 0x00]) [.get
     = [.val 1, .skipped 3, .vals [1, 1, 1, 1, 1, 1, 1], .val 1, .vals [0, 0, 0, 0, 0, 0, 0, 0]] := by decide
 
 /-! ### Counterexamples on the pinned code (regressions of the fixes) -/
+
+/-- **Arbitrary encoder histories.**  For every sequence `ops` of `carquet_rle_encoder_put`,
+`_put_repeat` and `_flush` calls (flushes anywhere, any number of them) on a fresh encoder, followed by
+a final flush: `carquet_rle_decode_all` on the bytes written returns exactly the values put, in
+order, interleaved with the padding the flushes introduced — after the values preceding the i-th
+flush come `pads[i] < 8` zeros (`flushPad`: a flush pads a pending group of 1..7 values to a whole
+group of 8; it pads nothing when a run of ≥ 8 is pending, when nothing is pending, or at a group
+boundary).  `denoteWith pads` is that interleaving; erasing the pads gives the values put.  A
+caller that flushes in mid-stream therefore has to account for (or avoid) these zeros; a history
+without inner flushes is `C11_rle_roundtrip`. -/
+theorem C11_rle_history_roundtrip (w : Nat) (hw : w ≤ 32) (ops : List Rle.EncOp)
+    (hv : ∀ v ∈ Rle.histValues ops, v < 2 ^ w) :
+    (Rle.flushPads (Rle.Enc.init w) (ops ++ [.flush])).length = (ops.filter (· = .flush)).length + 1 ∧
+    (∀ k ∈ Rle.flushPads (Rle.Enc.init w) (ops ++ [.flush]), k < 8) ∧
+    Rle.decodeAll w (Rle.runEncOps (Rle.Enc.init w) (ops ++ [.flush])).out
+        (Rle.denoteWith (Rle.flushPads (Rle.Enc.init w) (ops ++ [.flush])) (ops ++ [.flush])).length
+      = Rle.denoteWith (Rle.flushPads (Rle.Enc.init w) (ops ++ [.flush])) (ops ++ [.flush]) ∧
+    Rle.denoteWith ((Rle.flushPads (Rle.Enc.init w) (ops ++ [.flush])).map (fun _ => 0)) (ops ++ [.flush])
+      = Rle.histValues ops := by
+  obtain ⟨hr, h1, h2⟩ := RleHistory.history_runs hw ops hv
+  refine ⟨h1, h2, ?_, ?_⟩
+  · rw [RleDecoder.decodeAll_eq w hw, RleGrammar.allValues_of_runs hw hr]
+    simp
+  · rw [RleHistory.denoteWith_zero _ _ (by intro k hk; simp only [List.mem_map] at hk; obtain ⟨_, _, rfl⟩ := hk; rfl),
+      RleHistory.histValues_append_flush]
+
+/-- non-vacuity: put 1, flush (7 zeros of padding), 9 × 5 (an RLE run: no padding), flush, put 2, put 2 -/
+example : Rle.flushPads (Rle.Enc.init 3) [.put 1, .flush, .rep 5 9, .flush, .put 2, .put 2, .flush] = [7, 0, 6] ∧
+    (Rle.runEncOps (Rle.Enc.init 3) [.put 1, .flush, .rep 5 9, .flush, .put 2, .put 2, .flush]).out =
+      [0x03, 0x01, 0x00, 0x00, 0x12, 0x05, 0x03, 0x12, 0x00, 0x00] ∧
+    Rle.decodeAll 3 [0x03, 0x01, 0x00, 0x00, 0x12, 0x05, 0x03, 0x12, 0x00, 0x00] 25 =
+      [1, 0, 0, 0, 0, 0, 0, 0, 5, 5, 5, 5, 5, 5, 5, 5, 5, 2, 2, 0, 0, 0, 0, 0, 0] := by decide
 
 /-- F1 (pinned `flush_bitpack` before an RLE run): the bytes the pinned encoder emits for
 `[1,0,1,1,1,1,1,1,1,1,1,1,0]` at width 1 are `03 01 14 01 03 00`, which denote
